@@ -456,6 +456,129 @@ def _split_commas(ts):
     return out
 
 
+def unfold_for_continue(text, log=None):
+    """Verus: "for-loops do not yet support continue".  A guarded `continue` that is a statement of the loop body itself,
+        for P in E { A; if C { S; continue; } B }      ->      for P in E { A; if C { S; } else { B } }
+    (no `else` on that `if`, the `continue` unlabelled and last in its block) is the same control flow: the rest of the body runs
+    exactly when the guard is false.  Applied to the CURRENT repository text only when it contains such a loop (the pinned tree has
+    none); every other use of `continue` in a `for` is left alone and stays unsupported.  Mechanical, logged per function."""
+    from rslex import match_close, is_macro_open
+    for _ in range(8):
+        ts = lex(text)
+        edit = None
+        k = 0
+        while k < len(ts) and edit is None:
+            if ts[k][0] == 'punct' and ts[k][1] in '([{' and is_macro_open(ts, k):
+                k = match_close(ts, k) + 1
+                continue
+            if ts[k][1] == 'for' and ts[k][0] == 'ident' and not (k and ts[k - 1][1] in ('.', ':', '<')):
+                j = k + 1
+                while j < len(ts) and ts[j][1] != 'in':
+                    j = match_close(ts, j) + 1 if ts[j][1] in '([{' else j + 1
+                while j < len(ts) and ts[j][1] != '{':
+                    j = match_close(ts, j) + 1 if ts[j][1] in '([' else j + 1
+                if j >= len(ts):
+                    break
+                edit = _continue_edit(ts, j, match_close(ts, j), match_close)
+            k += 1
+        if edit is None:
+            return text
+        (ca, cb), else_at, close_at = edit
+        text = text[:ca] + text[cb:else_at] + ' else {' + text[else_at:close_at] + '}' + text[close_at:]
+        if log is not None:
+            log.append({'kind': 'for-continue-to-else', 'old': 'for .. { ..; if C { ..; continue; } REST }', 'new': 'for .. { ..; if C { ..; } else { REST } }',
+                        'why': 'Verus does not support `continue` in a for loop; a guarded continue at the top level of the body is the same control flow as running the rest in the else branch'})
+    return text
+
+
+def _continue_edit(ts, bo, bc, match_close):
+    """In the block ts[bo..bc], which is in TAIL position of a `for` body (the body itself, or a branch / match arm of the last
+    statement of a tail block - so that nothing of the iteration runs after it): the first statement `if C { .. continue; }` without
+    else.  Returns ((continue span), position after the if-block, position of the block's closing brace) or None."""
+    k = bo + 1
+    last_stmt = bo + 1   # token index where the last top-level statement of the block starts
+    while k < bc:
+        t = ts[k]
+        if t[1] in ('for', 'while', 'loop') and t[0] == 'ident' and (k == bo + 1 or ts[k - 1][1] in (';', '}', '{')):
+            # a nested loop owns its own `continue`s: skip it entirely
+            last_stmt = k
+            j = k + 1
+            while j < bc and ts[j][1] != '{':
+                j = match_close(ts, j) + 1 if ts[j][1] in '([' else j + 1
+            k = match_close(ts, j) + 1 if j < bc else bc
+            continue
+        if t[1] == 'if' and t[0] == 'ident' and (k == bo + 1 or ts[k - 1][1] in (';', '}', '{')):
+            last_stmt = k
+            j = k + 1
+            while j < bc and ts[j][1] != '{':
+                j = match_close(ts, j) + 1 if ts[j][1] in '([' else j + 1
+            if j >= bc:
+                return None
+            e = match_close(ts, j)
+            nxt = ts[e + 1][1] if e + 1 < len(ts) else ''
+            if nxt != 'else':
+                if e >= 3 and ts[e - 1][1] == ';' and ts[e - 2][1] == 'continue' and ts[e - 3][1] in (';', '{', '}'):
+                    return ((ts[e - 2][2], ts[e - 1][3]), ts[e][3], ts[bc][2])
+                k = e + 1
+                continue
+            # if .. else ..: skip the whole chain (its branches are tail blocks only if it is the last statement: handled below)
+            k = e + 1
+            while k < bc and ts[k][1] == 'else':
+                j = k + 1
+                while j < bc and ts[j][1] != '{':
+                    j = match_close(ts, j) + 1 if ts[j][1] in '([' else j + 1
+                if j >= bc:
+                    return None
+                k = match_close(ts, j) + 1
+            continue
+        if t[1] in '([{':
+            k = match_close(ts, k) + 1
+            continue
+        if t[1] == ';':
+            last_stmt = k + 1
+        elif k == bo + 1 or ts[k - 1][1] in (';', '}'):
+            last_stmt = k
+        k += 1
+    # no guarded continue at this level: descend into the branches / arms of the LAST statement, if it ends the block
+    if last_stmt >= bc or ts[bc - 1][1] != '}':
+        return None
+    head = ts[last_stmt][1]
+    if head == 'match':
+        j = last_stmt + 1
+        while j < bc and ts[j][1] != '{':
+            j = match_close(ts, j) + 1 if ts[j][1] in '([' else j + 1
+        if j >= bc or match_close(ts, j) != bc - 1:
+            return None
+        q = j + 1
+        while q < bc - 1:
+            if ts[q][1] in '([{':
+                q = match_close(ts, q) + 1
+                continue
+            if ts[q][1] == '=' and ts[q + 1][1] == '>' and ts[q + 2][1] == '{':
+                r = _continue_edit(ts, q + 2, match_close(ts, q + 2), match_close)
+                if r:
+                    return r
+                q = match_close(ts, q + 2) + 1
+                continue
+            q += 1
+        return None
+    if head == 'if':
+        q = last_stmt + 1
+        while q < bc:
+            if ts[q][1] in '([':
+                q = match_close(ts, q) + 1
+                continue
+            if ts[q][1] == '{':
+                r = _continue_edit(ts, q, match_close(ts, q), match_close)
+                if r:
+                    return r
+                q = match_close(ts, q) + 1
+                continue
+            q += 1
+        return None
+    return None
+
+
 def inline_new_helpers(unit, block, text, log=None, depth=0):
     """A call of a function that is defined in the same source file but is in no unit (a helper that did not exist when the
     annotated copy was written: "extract function") is replaced by the helper's body, so that the caller can still be verified
@@ -481,7 +604,7 @@ def inline_new_helpers(unit, block, text, log=None, depth=0):
         if t[0] == 'punct' and t[1] in '([{' and is_macro_open(ts, k):
             k = match_close(ts, k) + 1
             continue
-        if (t[0] == 'ident' and k + 1 < len(ts) and ts[k + 1][1] == '(' and (k == 0 or ts[k - 1][1] not in ('.', ':', 'fn', '!'))
+        if (t[0] == 'ident' and k + 1 < len(ts) and ts[k + 1][1] == '(' and (k == 0 or ts[k - 1][1] not in ('.', ':', 'fn'))
                 and t[1] not in known and t[1] not in _KEYWORDS and t[1] != block['name']):
             try:
                 span = find_item(src, 'fn', t[1])
@@ -892,6 +1015,8 @@ def generate(unit_path, out_path, spec_root=None):
         try:
             real, real_line = real_item_text(b)
             nlog = []
+            if 'continue' in real:
+                real = unfold_for_continue(real, nlog)
             real = inline_new_helpers(unit, b, real, nlog)
             real = normalise(unit, real, nlog)
         except LostAnchor as e:
